@@ -129,5 +129,114 @@ def parsePipelineT (env : Env P O T V) (vac : P → Bool) (ty : Nat → V → Bo
       ⟨r2.out, r2.isPtr, r.log ++ r2.log⟩
     | .error e => ⟨.error e, false, r.log⟩
 
+/-! ### The pass over the pointer, for every schema type (round 4b)
+
+  What a check does with the raw pointer payload depends on the schema type's wrappers, not on the engine:
+    * `vac`    it returns without an issue and without calling anything (size checks: their built-in `When`
+               `HasSize‖HasLength` is false on a pointer; `Check(fn)` wrappers whose `payload.Value().(R)` fails);
+    * `issue`  it reports an issue without calling the user (numeric and string built-ins: `validate.*` reject a
+               pointer; `ZodString.Refine` wrappers return false);
+    * `run`    it converts the pointer and evaluates as usual (`Refine` wrappers of Int / Slice / Object,
+               `RefineAny` callbacks, `Check(fn)` of a pointer-typed schema).
+  and an overwrite on a raw payload either returns it unchanged (`skip`: `ZodString[string]`), applies and stores a
+  new POINTER (`stay`: `ZodString[*string]`), or applies and stores a plain VALUE (`cook`: Int, Slice, Object, …:
+  from then on every check behaves as in the regular pass).
+  `firstPassFrom` (strings) and `firstPassC` (containers) are the two instances that existed before
+  (`firstPassG_string`, `firstPassG_container`); the theorems of Proofs/C10G.lean hold for EVERY classification,
+  so the classification the driver uses matters for the callback log only, never for verdict, issues or value. -/
+
+inductive RawB where
+  | vac | issue | run
+  deriving Repr, DecidableEq
+
+inductive OwB where
+  | skip | stay | cook
+  deriving Repr, DecidableEq
+
+def OwB.applies : OwB → Bool
+  | .skip => false
+  | _ => true
+
+def OwB.staysRaw : OwB → Bool
+  | .cook => false
+  | _ => true
+
+/-- How the check at hand behaves: by its raw class while the payload is the pointer, as usual afterwards. -/
+def effB (rawB : P → RawB) (raw : Bool) (p : P) : RawB := if raw then rawB p else .run
+
+def firstPassG (env : Env P O T V) (rawB : P → RawB) (ow : OwB) :
+    Nat → List (Check P O) → V → Bool → List Nat → List (Ev V) → Run V
+  | _, [], val, _, iss, log => ⟨val, iss, log⟩
+  | i, .overwrite o :: cs, val, raw, iss, log =>
+      if raw && !ow.applies then firstPassG env rawB ow (i + 1) cs val raw iss log
+      else firstPassG env rawB ow (i + 1) cs (env.apply o val) (raw && ow.staysRaw) iss (log ++ [.over i val])
+  | i, .pred p abort none :: cs, val, raw, iss, log =>
+      match effB rawB raw p with
+      | .vac => firstPassG env rawB ow (i + 1) cs val raw iss log
+      | .issue =>
+        if abort then ⟨val, iss ++ [i], log⟩ else firstPassG env rawB ow (i + 1) cs val raw (iss ++ [i]) log
+      | .run =>
+        if env.holds p val then firstPassG env rawB ow (i + 1) cs val raw iss (log ++ [.check i val])
+        else if abort then ⟨val, iss ++ [i], log ++ [.check i val]⟩
+        else firstPassG env rawB ow (i + 1) cs val raw (iss ++ [i]) (log ++ [.check i val])
+  | i, .pred p abort (some w) :: cs, val, raw, iss, log =>
+      if iss ≠ [] then firstPassG env rawB ow (i + 1) cs val raw iss log
+      else if env.holds w val = false then firstPassG env rawB ow (i + 1) cs val raw iss (log ++ [.when i val])
+      else
+        match effB rawB raw p with
+        | .vac => firstPassG env rawB ow (i + 1) cs val raw iss (log ++ [.when i val])
+        | .issue =>
+          if abort then ⟨val, iss ++ [i], log ++ [.when i val]⟩
+          else firstPassG env rawB ow (i + 1) cs val raw (iss ++ [i]) (log ++ [.when i val])
+        | .run =>
+          if env.holds p val then firstPassG env rawB ow (i + 1) cs val raw iss (log ++ [.when i val, .check i val])
+          else if abort then ⟨val, iss ++ [i], log ++ [.when i val, .check i val]⟩
+          else firstPassG env rawB ow (i + 1) cs val raw (iss ++ [i]) (log ++ [.when i val, .check i val])
+
+/-- `validatePointer` (parser.go:951) for any schema type: the validator (regular pass) decides; when it accepts, the
+    input went through a pointer (`viaPtr`: a pointer input, or any input of a container schema, whose
+    `extract…PtrForEngine` wraps values) and an overwrite is attached, `validatePointerWithOverwrite` runs the
+    checks over the pointer; its value is the result when it ends without an issue and produced another pointer. -/
+def runChecksG (env : Env P O T V) (rawB : P → RawB) (ow : OwB) (viaPtr : Bool) (cs : List (Check P O)) (v : V) : Run V :=
+  let r := runChecks env cs v
+  if viaPtr && hasOverwrite cs then
+    if r.issues ≠ [] then r
+    else
+      let fp := firstPassG env rawB ow 0 cs v true [] []
+      if ow.applies && fp.issues.isEmpty then ⟨fp.val, [], r.log ++ fp.log⟩ else ⟨r.val, [], r.log ++ fp.log⟩
+  else r
+
+/-- What the pipeline needs to know about a base schema's type. -/
+structure BaseClass (P : Type) where
+  rawB : P → RawB
+  ow : OwB
+  wraps : Bool            -- container schemas hand EVERY input to `validatePointer`
+
+/-- The position reported for an invalid_type issue of a stage (no check of the stage has that position). -/
+def typeErrPos : Nat := 999999
+
+/-- Pipelines with the type dispatch and the pointer pass of every base schema: `cls tag` classifies base schema
+    `tag`; a stage that receives a value it does not take as its own type fails with `(tag, [typeErrPos])` — the
+    error names the stage. -/
+def parsePipelineG (env : Env P O T V) (cls : Nat → BaseClass P) (ty : Nat → V → Bool) : PipelineK P O T → V → Bool → Res V
+  | .base tag ptrSchema _ cs, v, ptrIn =>
+    if ty tag v then
+      let c := cls tag
+      let r := runChecksG env c.rawB c.ow (ptrIn || c.wraps) cs v
+      ⟨if r.issues = [] then .ok r.val else .error (tag, r.issues), ptrSchema, r.log.map (.chk tag)⟩
+    else ⟨.error (tag, [typeErrPos]), ptrSchema, []⟩
+  | .transform src i t, v, ptrIn =>
+    let r := parsePipelineG env cls ty src v ptrIn
+    match r.out with
+    | .ok x => ⟨.ok (env.trans t x), false, r.log ++ [.tr i x]⟩
+    | .error e => ⟨.error e, false, r.log⟩
+  | .pipe a b, v, ptrIn =>
+    let r := parsePipelineG env cls ty a v ptrIn
+    match r.out with
+    | .ok x =>
+      let r2 := parsePipelineG env cls ty b x r.isPtr
+      ⟨r2.out, r2.isPtr, r.log ++ r2.log⟩
+    | .error e => ⟨.error e, false, r.log⟩
+
 end
 end Gozod
